@@ -460,6 +460,12 @@ class IRRun:
             elif op == "icmp":
                 a, b = self.val(i.ops[0]), self.val(i.ops[1])
                 bits = int_bits(i.ops[0].ty) or 64
+                if isinstance(a, tuple) or isinstance(b, tuple):
+                    # pointers: the state cell and the child cells are distinct non-NULL objects
+                    if i.pred not in ("eq", "ne") or ("opaque",) in (a, b):
+                        raise Unmodelled("ordered / opaque pointer comparison")
+                    self.env[i.name] = 1 if (a == b) == (i.pred == "eq") else 0
+                    continue
                 def s(x):
                     return x - (1 << bits) if x >> (bits - 1) else x
                 r = {"eq": a == b, "ne": a != b, "ult": a < b, "ule": a <= b, "ugt": a > b, "uge": a >= b,
